@@ -529,3 +529,155 @@ Lemma flags_same_hascb b : flags_same (with_hascb b).
 Proof. intros h; cbn; auto. Qed.
 Lemma flags_same_pending b : flags_same (with_pending b).
 Proof. intros h; cbn; auto. Qed.
+
+(* ------------------------------------------------------------------ *)
+(* the four macros                                                    *)
+(* ------------------------------------------------------------------ *)
+Lemma LInvG_handle_ref s pend wpend i : LInvG s pend wpend -> LInvG (handle_ref s i) pend wpend.
+Proof.
+  intros Hinv. destruct (Nat.lt_ge_cases i (length (hs s))) as [Hi|Hi].
+  - pose proof Hinv as [HI _]. destruct (hi_hok _ _ HI i Hi) as (K1 & K2).
+    eapply LInvG_hstep_plain with (i := i) (f := fun h => with_ref true h); eauto.
+    + apply (hstep_handle_ref s s i (fun h => h)); [exact Hi|exact K1|apply hstep_refl].
+    + split; assumption.
+  - eapply LInvG_core; [|exact Hinv]. unfold handle_ref. rewrite hget_overflow by exact Hi.
+    unfold upd_h, hcore; cbn. rewrite upd_overflow by exact Hi. reflexivity.
+Qed.
+
+Lemma LInvG_handle_unref s pend wpend i : LInvG s pend wpend -> LInvG (handle_unref s i) pend wpend.
+Proof.
+  intros Hinv. destruct (Nat.lt_ge_cases i (length (hs s))) as [Hi|Hi].
+  - pose proof Hinv as [HI _]. destruct (hi_hok _ _ HI i Hi) as (K1 & K2).
+    eapply LInvG_hstep_plain with (i := i) (f := fun h => with_ref false h); eauto.
+    + apply (hstep_handle_unref s s i (fun h => h)); [exact Hi|exact K1|apply hstep_refl].
+    + split; assumption.
+  - eapply LInvG_core; [|exact Hinv]. unfold handle_unref. rewrite hget_overflow by exact Hi.
+    reflexivity.
+Qed.
+
+Lemma LInvG_handle_stop s pend wpend i :
+  is_timer (hget s i) = false -> LInvG s pend wpend -> LInvG (handle_stop s i) pend wpend.
+Proof.
+  intros Hnt Hinv. destruct (Nat.lt_ge_cases i (length (hs s))) as [Hi|Hi].
+  - pose proof Hinv as [HI _]. destruct (hi_hok _ _ HI i Hi) as (K1 & K2).
+    eapply LInvG_hstep_plain with (i := i) (f := fun h => with_active false h); eauto.
+    + apply (hstep_handle_stop s s i (fun h => h)); [exact Hi|apply hstep_refl].
+    + congruence.
+    + split; cbn; auto.
+  - eapply LInvG_core; [|exact Hinv]. unfold handle_stop. rewrite hget_overflow by exact Hi.
+    reflexivity.
+Qed.
+
+Lemma LInvG_handle_start s pend wpend i :
+  is_timer (hget s i) = false -> h_closing (hget s i) = false ->
+  LInvG s pend wpend -> LInvG (handle_start s i) pend wpend.
+Proof.
+  intros Hnt Hnc Hinv. destruct (Nat.lt_ge_cases i (length (hs s))) as [Hi|Hi].
+  - pose proof Hinv as [HI _]. destruct (hi_hok _ _ HI i Hi) as (K1 & K2).
+    eapply LInvG_hstep_plain with (i := i) (f := fun h => with_active true h); eauto.
+    + apply (hstep_handle_start s s i (fun h => h)); [exact Hi|apply hstep_refl].
+    + congruence.
+    + split; cbn; [congruence|auto].
+  - eapply LInvG_core; [|exact Hinv]. unfold handle_start. rewrite hget_overflow by exact Hi.
+    unfold upd_h, hcore; cbn. rewrite upd_overflow by exact Hi. reflexivity.
+Qed.
+
+(* ------------------------------------------------------------------ *)
+(* watchers, async                                                    *)
+(* ------------------------------------------------------------------ *)
+Lemma hstep_watcher_stop s0 s i f T K C :
+  (i < length (hs s0))%nat -> hstepG s0 s i f T K C ->
+  hstepG s0 (watcher_stop s i) i (fun h => with_active false (f h)) T K C.
+Proof.
+  intros Hi Hst. unfold watcher_stop.
+  destruct (h_active (hget s i)) eqn:Ea.
+  - apply hstep_handle_stop; [exact Hi|].
+    eapply hstep_core; [|exact Hst]. cbn. apply hcore_wq_set.
+  - assert (E : handle_stop s i = s) by (unfold handle_stop; rewrite Ea; reflexivity).
+    rewrite <- E. apply hstep_handle_stop; assumption.
+Qed.
+
+Lemma is_timer_false_of_watcher s i : is_watcher s i = true -> is_timer (hget s i) = false.
+Proof.
+  unfold is_watcher, kind_is, is_timer. destruct (h_kind (hget s i)); cbn; auto; discriminate.
+Qed.
+
+Lemma LInvG_watcher_stop s pend wpend i :
+  is_timer (hget s i) = false -> LInvG s pend wpend -> LInvG (watcher_stop s i) pend wpend.
+Proof.
+  intros Hnt Hinv. unfold watcher_stop. destruct (h_active (hget s i)) eqn:Ea; [|exact Hinv].
+  set (s2 := set_lq _ _).
+  assert (Hc : hcore s2 = hcore s) by (subst s2; cbn; apply hcore_wq_set).
+  assert (Hg : hget s2 i = hget s i).
+  { unfold hget. apply hcore_eq in Hc. destruct Hc as (_ & _ & -> & _). reflexivity. }
+  apply LInvG_handle_stop; [rewrite Hg; exact Hnt|].
+  eapply LInvG_core; [exact Hc|exact Hinv].
+Qed.
+
+Lemma LInvG_watcher_start s pend wpend i hascb :
+  is_timer (hget s i) = false -> h_closing (hget s i) = false ->
+  LInvG s pend wpend -> LInvG (fst (watcher_start s i hascb)) pend wpend.
+Proof.
+  intros Hnt Hnc Hinv. unfold watcher_start.
+  destruct (h_active (hget s i)) eqn:Ea; [exact Hinv|].
+  destruct hascb; cbn [negb fst]; [|exact Hinv].
+  set (s1 := wq_set _ _ _).
+  assert (Hc : hcore s1 = hcore s) by (subst s1; apply hcore_wq_set).
+  assert (I1 : LInvG s1 pend wpend) by (eapply LInvG_core; [exact Hc|exact Hinv]).
+  assert (Hg : hget s1 i = hget s i).
+  { unfold hget. apply hcore_eq in Hc. destruct Hc as (_ & _ & -> & _). reflexivity. }
+  assert (I2 : LInvG (upd_h s1 i (with_hascb true)) pend wpend)
+    by (apply LInvG_upd_h_inert; [apply flags_same_hascb|exact I1]).
+  destruct (Nat.lt_ge_cases i (length (hs s1))) as [Hi|Hi].
+  - assert (Hg2 : hget (upd_h s1 i (with_hascb true)) i = with_hascb true (hget s1 i))
+      by (apply hget_upd_same; [reflexivity|exact Hi]).
+    apply LInvG_handle_start; [| |exact I2]; rewrite Hg2, Hg; cbn; assumption.
+  - assert (Hg2 : hget (upd_h s1 i (with_hascb true)) i = hget s1 i).
+    { unfold hget, upd_h; cbn. rewrite upd_overflow by exact Hi. reflexivity. }
+    apply LInvG_handle_start; [| |exact I2]; rewrite Hg2, Hg; assumption.
+Qed.
+
+Lemma LInvG_async_send s pend wpend i : LInvG s pend wpend -> LInvG (async_send s i) pend wpend.
+Proof.
+  intros Hinv. unfold async_send. destruct (h_pending (hget s i)); [exact Hinv|].
+  eapply LInvG_core with (s := upd_h s i (with_pending true)); [reflexivity|].
+  apply LInvG_upd_h_inert; [apply flags_same_pending|exact Hinv].
+Qed.
+
+(* ------------------------------------------------------------------ *)
+(* work requests                                                      *)
+(* ------------------------------------------------------------------ *)
+Lemma LInvG_work_submit s pend wpend a : LInvG s pend wpend -> LInvG (work_submit s a) pend wpend.
+Proof.
+  intros [HI [W1 W2 W3]]. unfold work_submit.
+  set (s3 := set_wq _ _).
+  assert (I3 : LInvG s3 pend wpend).
+  { split.
+    - eapply HInv_fields; [| | | | |exact HI]; reflexivity.
+    - subst s3. constructor; cbn.
+      + rewrite countZ_app, W1. rewrite countZ_cons, countZ_nil. cbn. lia.
+      + rewrite <- app_assoc. simpl.
+        assert (Hn : ~ In (length (works s)) (wq s ++ wpend)).
+        { intros Hin. apply W3 in Hin. lia. }
+        clear - W2 Hn. revert W2 Hn. generalize (length (works s)) as n.
+        induction (wq s) as [|x l IH]; simpl; intros n W2 Hn.
+        * constructor; assumption.
+        * inversion W2; subst. constructor.
+          -- intros Hin. apply in_app_or in Hin. destruct Hin as [Hin|[<-|Hin]].
+             ++ apply H1. apply in_or_app; left; exact Hin.
+             ++ apply Hn; left; reflexivity.
+             ++ apply H1. apply in_or_app; right; exact Hin.
+          -- apply IH; [assumption|]. intros Hin. apply Hn; right; exact Hin.
+      + intros w. rewrite app_length; simpl length.
+        rewrite <- app_assoc. simpl.
+        assert (Hiff : In w (wq s ++ length (works s) :: wpend) <->
+                       In w (wq s ++ wpend) \/ w = length (works s)).
+        { rewrite !in_app_iff. simpl. intuition. }
+        rewrite Hiff, W3. destruct (Nat.lt_ge_cases w (length (works s))) as [L|G].
+        * rewrite app_nth1 by exact L. split; [intros [H|H]; [|lia]|intros H; left]; intuition lia.
+        * destruct (Nat.eq_dec w (length (works s))) as [->|Hne].
+          -- rewrite nth_app_last. cbn. split; [intros _; split; [lia|reflexivity]|auto].
+          -- split; [intros [H|H]; lia|intros (H & _); lia]. }
+  destruct (wq_pending s3); [exact I3|].
+  eapply LInvG_core; [|exact I3]. reflexivity.
+Qed.
